@@ -174,7 +174,7 @@ def _worker(args):
     except AssertionError:
         pass                        # stats.failure holds the (shrunk) example
     except hypothesis.errors.Flaky:
-        if stats.failure is not None:
+        if stats.failure is not None and not getattr(mod, "REPORT_UNREPRODUCED", False):
             stats.unreproduced.append(stats.failure)
             stats.failure = None
     except hypothesis.errors.FailedHealthCheck as e:
@@ -185,13 +185,24 @@ def _worker(args):
     return stats
 
 
-def confirm(mod, ctx, text, times=3):
-    """Re-run a failing case outside Hypothesis. Returns the failing Outcome or None."""
+def confirm(mod, ctx, text, times=3, recorded=None):
+    """Re-run a failing case outside Hypothesis. Returns the failing Outcome or None.
+
+    Race-dependent checks (module sets CONFIRM_TIMES, DESIGN 1.4: C15 threaded part, C19) replay up
+    to CONFIRM_TIMES times, stop at the first recurrence, and - if the module sets
+    REPORT_UNREPRODUCED - report the recorded first observation when the race does not recur."""
+    race = getattr(mod, "CONFIRM_TIMES", None)
     last = None
-    for _ in range(times):
+    for _ in range(race or times):
         out = mod.evaluate(text, ctx)
         if not out.ok:
             last = out
+            if race:
+                break
+    if last is None and recorded is not None and getattr(mod, "REPORT_UNREPRODUCED", False):
+        _t, sig, msg, detail = recorded
+        last = Outcome(ok=False, sig=sig, detail=detail,
+                       msg="%s\n(recorded observation: did not recur in %d replays)" % (msg, race or times))
     return last
 
 
@@ -284,7 +295,7 @@ def run_check(prop_id, tier):
                 errors.append(st.error)
             if st.failure is not None:
                 text, sig, msg, detail = st.failure
-                out = confirm(mod, ctx, text)
+                out = confirm(mod, ctx, text, recorded=st.failure)
                 if out is None:
                     total.unreproduced.append(st.failure)
                 else:
@@ -298,7 +309,7 @@ def run_check(prop_id, tier):
         for d in ex.get("nontrivial_digests", ()):
             total.nontrivial_digests.add(d)
         for (text, sig, msg) in ex.get("failures", []):
-            out = confirm(mod, ctx, text)
+            out = confirm(mod, ctx, text, recorded=(text, sig, msg, ""))
             if out is not None:
                 note_failure(text, out, "extra")
             else:
